@@ -1,4 +1,5 @@
 import functools
+import os
 from tempfile import SpooledTemporaryFile
 from typing import (
     Any,
@@ -81,6 +82,25 @@ class NextResponse(StreamingResponse):
                 )
             elif message["type"] == "http.response.body":
                 await body.push(message.get("body", b""))
+                if not message.get("more_body", False):
+                    await body.push_eof()
+            elif message["type"] == "http.response.zerocopysend":
+                # what a server with the zero-copy extension would send
+                # straight from the file is part of the body as well
+                file = message["file"]
+                if "offset" in message:
+                    await run_in_threadpool(
+                        os.lseek, file, message["offset"], os.SEEK_SET
+                    )
+                remaining = message.get("count")
+                while remaining is None or remaining > 0:
+                    length = 4096 * 16 if remaining is None else min(4096 * 16, remaining)
+                    chunk = await run_in_threadpool(os.read, file, length)
+                    if not chunk:
+                        break
+                    await body.push(chunk)
+                    if remaining is not None:
+                        remaining -= len(chunk)
                 if not message.get("more_body", False):
                     await body.push_eof()
 
